@@ -381,6 +381,8 @@ def _run(case, res, tf):
 
     def run(op, depth):
         k = op[0]
+        if st_.get("stop"):
+            return
         res.label("op:" + k)
         if k == "jump":
             tf(tval(op[1]))
@@ -490,9 +492,10 @@ def _run(case, res, tf):
             if tf() != t0 or type(tf()) is not type(t0):
                 res.fail("C19.time_context_restore", f"time was {t0!r} before `with time:` and is {tf()!r} after it")
             if st_.pop("retyped", False):
-                forget()          # (the time is back, the time type is not - which the statement does not ask for)
-                if depth > 0:
-                    st_["retyped"] = True
+                # the time is back, the time type is not (which the statement does not ask for): from here on the clock holds
+                # a time of one type and converts to another - nothing further is judged in this history
+                forget()
+                st_["stop"] = True
             if any(tt != Fraction(t0) for tt in st_["times_seen"][n0:]):
                 st_["ctx_jump"] = True
             st_["times_seen"].append(now())
